@@ -86,7 +86,47 @@ def enum_names(F, enum):
 
 
 def case_table(F, b):
-    """switch over request.type -> {label name: [callee names]}"""
+    """request kind -> callees reached when request.type is that kind, whatever the spelling of the dispatch (switch, if / else-if chain,
+    early returns): per path, the kinds the path admits (from its `case` labels and its == / != tests of the kind) and the calls it makes"""
+    kinds = enum_names(F, "TransitionType")          # name -> value
+    byval = {v: n for n, v in kinds.items()}
+    if not kinds:
+        return _case_table_syntactic(F, b)
+    out = {}
+    fid = b["id"]
+    for p in sym_paths(F, fid, 1):
+        admitted = set(kinds)
+        calls = []
+        for ev in p:
+            if ev[0] == "assume":
+                node = ev[1]
+                if isinstance(node, dict) and node.get("k") == "switchcase":
+                    labels = node.get("labels", [])
+                    if labels and "default" not in labels:
+                        admitted &= set(byval.get(strip(l).get("cv")) for l in labels if isinstance(l, dict))
+                else:
+                    e = strip(node) if isinstance(node, dict) else {}
+                    if e.get("k") == "bin" and e.get("op") in ("==", "!="):
+                        for a, o in ((strip(e["lhs"]), strip(e["rhs"])), (strip(e["rhs"]), strip(e["lhs"]))):
+                            if isinstance(a, dict) and a.get("d") == "enum" and a.get("o") == "TransitionType" and "type" in _txt(o):
+                                eq = (e["op"] == "==") == bool(ev[3])
+                                admitted = (admitted & {a["n"]}) if eq else (admitted - {a["n"]})
+            elif ev[0] == "call" and ev[2] is not None and F.fn(ev[2]).get("kind") not in ("ctor", "dtor") and not F.fn(ev[2])["name"].startswith("operator"):
+                calls.append(F.fn(ev[2])["name"])
+        for k in admitted:
+            lst = out.setdefault(k, [])
+            for c in calls:
+                if c not in lst:
+                    lst.append(c)
+    return out
+
+
+def _txt(e):
+    from .C12 import _expr_txt
+    return _expr_txt(e) if isinstance(e, dict) else ""
+
+
+def _case_table_syntactic(F, b):
     out = {}
     for x in walk(b["body"]):
         if x.get("k") == "switch":
@@ -206,38 +246,49 @@ def check_leftmost(ctx, F, rule):
                         ct = F.fn(init["f"]).get("tid")
                         defs[v["n"]] = "L" if bases and ct == bases[0] else ("R" if len(bases) > 1 and ct == bases[1] else "?")
         if len(rets) == 1:
-            e = strip(rets[0]["e"])
-            while e.get("k") in ("ctor",) and len(e.get("a", [])) == 1:
-                e = strip(e["a"][0])
-            if e.get("k") == "cond":
-                c = strip(e["c"])
-                t, f_ = strip(e["t"]), strip(e["f"])
-                while t.get("k") == "ctor" and len(t.get("a", [])) == 1:
-                    t = strip(t["a"][0])
-                while f_.get("k") == "ctor" and len(f_.get("a", [])) == 1:
-                    f_ = strip(f_["a"][0])
+            # the choice as a function of how the left half's value compares with the right half's: evaluated for L < R, L == R, L > R, whatever
+            # the spelling of the test (>=, !(<), swapped operands, negated condition with swapped arms, if / early return)
+            def unwrap(x):
+                x = strip(x)
+                while isinstance(x, dict) and x.get("k") == "ctor" and len(x.get("a", [])) == 1:
+                    x = strip(x["a"][0])
+                return x
 
-                def root(x):
-                    x = strip(x)
-                    while x.get("k") == "mem":
-                        x = strip(x["b"])
-                    return x.get("n")
-                if c.get("k") == "bin":
-                    lv, rv = root(c["lhs"]), root(c["rhs"])
-                    op = c["op"]
-                    tv, fv = root(t), root(f_)
-                    sides = (defs.get(lv), defs.get(rv), defs.get(tv), defs.get(fv))
-                    # keep the left operand on ties: (L >= R ? L : R) or (R > L ? R : L) / (L < R ? R : L)
-                    if sides == ("L", "R", "L", "R") and op == ">=":
-                        ok = True
-                    elif sides == ("R", "L", "R", "L") and op == ">":
-                        ok = True
-                    elif sides == ("L", "R", "R", "L") and op == "<":
-                        ok = True
-                    elif sides == ("R", "L", "L", "R") and op == "<=":
-                        ok = True
-                    else:
-                        why = "comparison `%s %s %s ? %s : %s` does not keep the left half on ties" % (sides[0], op, sides[1], sides[2], sides[3])
+            def root(x):
+                x = unwrap(x)
+                while isinstance(x, dict) and x.get("k") == "mem":
+                    x = unwrap(x["b"])
+                return defs.get(x.get("n")) if isinstance(x, dict) else None
+
+            def ev(x, o):          # o in (-1, 0, 1): sign of L - R
+                x = unwrap(x)
+                k = x.get("k")
+                if k == "un" and x.get("op") == "!":
+                    return not ev(x["e"], o)
+                if k == "bin" and x.get("op") in ("&&", "||"):
+                    a, c2 = ev(x["lhs"], o), ev(x["rhs"], o)
+                    return (a and c2) if x["op"] == "&&" else (a or c2)
+                if k == "bin" and x.get("op") in ("<", "<=", ">", ">=", "==", "!="):
+                    a, c2 = root(x["lhs"]), root(x["rhs"])
+                    if {a, c2} != {"L", "R"}:
+                        raise ValueError("comparison is not between the two halves")
+                    d = o if a == "L" else -o
+                    return {"<": d < 0, "<=": d <= 0, ">": d > 0, ">=": d >= 0, "==": d == 0, "!=": d != 0}[x["op"]]
+                raise ValueError("unrecognised test")
+
+            def choice(x, o):
+                x = unwrap(x)
+                if x.get("k") == "cond":
+                    return choice(x["t"], o) if ev(x["c"], o) else choice(x["f"], o)
+                return root(x)
+            try:
+                got = tuple(choice(rets[0]["e"], o) for o in (-1, 0, 1))
+                if got == ("R", "L", "L"):
+                    ok = True
+                else:
+                    why = "the value kept for (L < R, L == R, L > R) is %s, expected (R, L, L): the greater one, the left half on ties" % (got,)
+            except (ValueError, KeyError, TypeError) as e2:
+                why = "return is not a choice between the two halves by one comparison (%s)" % e2
         ctx.instance(rule, site, {"function": site, "loc": F.floc(fid)})
         if not ok:
             ctx.violation(rule, site, "%s (%s)" % (site, F.floc(fid)), why, {})
@@ -364,8 +415,14 @@ def reg_skeleton(F, ctx, fid):
         for x in seq:
             if not col or col[-1] != x:
                 col.append(x)
+        if F.fn(fid)["name"] in ORDER_FREE:
+            col = sorted(col, key=str)          # whole-field resets / copies of distinct fields: their order is immaterial
         out.add(tuple(col))
     return out
+
+
+# members that only reset / copy whole, distinct fields (no statement reads what another one writes)
+ORDER_FREE = ("clear", "clearRequests", "backup", "restore")
 
 
 def check_registry_siblings(ctx, F):
